@@ -60,10 +60,28 @@ def _mk_decoys():
     return tuple(dict.fromkeys(out))
 
 
-DECOYS = _mk_decoys()
+_HUGE = 10**5000
+_HB = _HUGE.to_bytes(2100, "little", signed=True)
+DECOYS = _mk_decoys() + (
+    # integers beyond the interpreter's int<->str conversion limit, binary and decimal
+    b"\x8b" + len(_HB).to_bytes(4, "little") + _HB + b".",
+    b"N." + b"L1" + b"0" * 5000 + b"L\n.",
+    b"L-1" + b"0" * 5000 + b"L\n.",
+)
 
-QUERIES = ("source", "safety", "trace", "interp_custom", "trace_custom", "has_import", "has_call", "has_nss_call", "imports",
+QUERIES = ("source", "safety", "safety_custom", "trace", "interp_custom", "trace_custom", "has_import", "has_call", "has_nss_call", "imports",
            "unsafe_imports", "nonstd_imports", "dumps", "likely_safe_file")  # fmt: skip
+
+
+_CUSTOM = {}
+
+
+def _custom_analyzer():
+    if "a" not in _CUSTOM:
+        from fickling.analysis import Analysis, Analyzer
+
+        _CUSTOM["a"] = Analyzer(a for a in Analysis.ALL)
+    return _CUSTOM["a"]
 
 
 def ask(p, q, data, path):
@@ -80,6 +98,14 @@ def ask(p, q, data, path):
             r = check_safety(p)
             return (
                 "safety",
+                r.severity.name,
+                frozenset((x.analysis_name, x.severity.name, x.message) for x in r.results),
+            )
+        if q == "safety_custom":
+            # an Analyzer of one's own, built once (from a one-shot iterable) and used for every call
+            r = check_safety(p, analyzer=_custom_analyzer())
+            return (
+                "safety_custom",
                 r.severity.name,
                 frozenset((x.analysis_name, x.severity.name, x.message) for x in r.results),
             )
@@ -267,17 +293,52 @@ def digest_item(data):
     from fickling.tracing import Trace
 
     out = []
+
+    def part(fn):
+        # every face is asked even when an earlier one refuses
+        try:
+            out.append(fn())
+        except Exception as e:  # noqa: BLE001
+            out.append("raised:" + type(e).__name__)
+
     try:
         p = Pickled.load(data)
-        out.append(ast.unparse(p.ast))
-        r = check_safety(p)
-        out.append(r.severity.name)
-        out.append(sorted(repr((x.analysis_name, x.severity.name, x.message)) for x in r.results))
-        with contextlib.redirect_stdout(io.StringIO()):
-            out.append(ast.unparse(Trace(Interpreter(Pickled.load(data))).run()))
-        out.append(p.dumps().hex())
     except Exception as e:  # noqa: BLE001
-        out.append("raised:" + type(e).__name__)
+        return hashlib.sha256(json.dumps(["parse raised:" + type(e).__name__]).encode()).hexdigest()
+    part(lambda: ast.unparse(p.ast))
+
+    def verdict():
+        r = check_safety(p)
+        return [r.severity.name, sorted(repr((x.analysis_name, x.severity.name, x.message)) for x in r.results)]
+
+    part(verdict)
+
+    def traced():
+        with contextlib.redirect_stdout(io.StringIO()):
+            return ast.unparse(Trace(Interpreter(Pickled.load(data))).run())
+
+    part(traced)
+
+    def cli_text():
+        # what the command line prints for these bytes (its own unparse path)
+        from fickling import cli
+
+        path = os.path.join(_scratch_dir(), f"digest-{os.getpid()}.pkl")
+        with open(path, "wb") as fh:
+            fh.write(data)
+        buf = io.StringIO()
+        try:
+            with contextlib.redirect_stdout(buf), contextlib.redirect_stderr(io.StringIO()):
+                rc = cli.main(["fickling", path])
+        except SystemExit as e:
+            rc = e.code
+        finally:
+            _rm(path)
+        return [rc, buf.getvalue()]
+
+    part(cli_text)
+    part(lambda: p.dumps().hex())
+    part(lambda: len(__import__("fickling.fickle", fromlist=["StackedPickle"]).StackedPickle.load(data)))
     return hashlib.sha256(json.dumps(out).encode()).hexdigest()
 
 
@@ -339,8 +400,11 @@ def _child_digests(corpus, hashseed, reverse=False):
     e = dict(os.environ)
     e["PYTHONHASHSEED"] = hashseed
     e["VERIF_REPO"] = env.REPO
+    e.pop("PYTHONOPTIMIZE", None)
     p = subprocess.run(
-        [sys.executable, "-c", code],
+        # the second interpreter also runs with assertions disabled (python -O): answers may not
+        # depend on that either
+        [sys.executable] + (["-O"] if reverse else []) + ["-c", code],
         input="\n".join(d.hex() for d in corpus).encode(),
         capture_output=True,
         env=e,
